@@ -277,6 +277,8 @@ var c15Scenarios = []c15Scenario{
 	{"encoder registry writer next to readers", [][]string{{"POST-valid"}, {"RegisterEncoder"}, {"POST-valid"}}},
 	{"legacy and gorilla routers on one document", [][]string{{"POST-legacy"}, {"POST-valid"}, {"GET-valid"}}},
 	{"VisitJSON twice on the shared schema", [][]string{{"VisitJSON", "VisitJSON-ok"}, {"VisitJSON-ok", "VisitJSON"}}},
+	{"one operation reached through two servers, legacy router", [][]string{{"POST-legacy"}, {"POST-legacy-beta"}, {"POST-legacy"}}},
+	{"one operation reached through two servers, gorillamux", [][]string{{"GET-valid"}, {"GET-beta"}}},
 }
 
 var c15Alone = map[string]string{}
@@ -290,7 +292,7 @@ func init() {
 	core.Register(&core.Check{
 		ID: "C15",
 		Rule: "part 1 (frame condition): every operation of the alphabet (route+validate request/response for valid and invalid GET/POST over both routers, VisitJSON, schema generation, encoder registration) run alone must leave a deep structural hash of the shared document, both routers and the shared schema unchanged; " +
-			"part 2 (controlled scheduler): 9 scenarios of 2-3 threads x 1-2 operations chosen to collide (same path template with different methods, same schema with pattern/uniqueItems/defaults, one uncached Go type, registry writer next to readers); scheduling points at every sync operation (vsync shim), at every access to a package-level variable of the library (instrumented) and between finding a route and using it; " +
+			"part 2 (controlled scheduler): 11 scenarios of 2-3 threads x 1-2 operations chosen to collide (same path template with different methods, same schema with pattern/uniqueItems/defaults, one uncached Go type, registry writer next to readers); scheduling points at every sync operation (vsync shim), at every access to a package-level variable of the library (instrumented) and between finding a route and using it; " +
 			"all interleavings with <=2 (quick) / <=3 (thorough) preemptions, blocking modelled, no enabled thread = deadlock; every call must return the verdict it returns alone; part 3: a free-running -race pass of the same operations for all pairs, 20 (quick) / 200 (thorough) repetitions. non-trivial = a schedule with at least one context switch",
 		Assumptions: []string{
 			"scheduling points are the sync operations, the package-level variable accesses and the operation boundaries; unsynchronised heap accesses between them are the business of part 1 (writes to shared memory) and part 3 (race detector)",
